@@ -21,7 +21,7 @@ RULE = ("cases = one generated CREATE TABLE each: 2..8 columns with inline PRIMA
         "position x column count x identifier style first, then seeded random tables. Non-trivial = the table carries at least "
         "one key/unique/check/foreign-key declaration; distinct = distinct DDL text. Known-finding classes (two-word referential "
         "actions, clause before the first column, UNIQUE clause before its column) are generated separately and classified by mechanism."
-        " Added after seeded defects: sort directions and [NON]CLUSTERED on key clauses, inline PK next to a named table-level PK (the named constraint's own list is compared), look-alike columns (id / \"ID\"), tricky vocabulary names.")
+        " Added after seeded defects: sort directions and [NON]CLUSTERED on key clauses, inline PK next to a named table-level PK (the named constraint's own list is compared), look-alike columns (id / \"ID\"), tricky vocabulary names, clauses wrapped over lines at every word gap.")
 ASSUMPTIONS = ["the *name* of an inline named foreign key (col type CONSTRAINT n REFERENCES ...) is reported nowhere on the pinned tree and is not judged; its reference must sit on its own column and must not create constraint entries",
                "one PRIMARY KEY declaration per table (SQL allows no more)",
                "the same spelling of a column is used in its definition and in the clauses that name it",
@@ -283,7 +283,7 @@ def run_shard(ctx):
             ctx.obs["lookalike_column_tables"] += 1
         else:
             t = restyle(t, rng.choice(list(STYLES)))
-        case = make_case(t, rng.choice([None, "multiline", {"case": "lower"}, {"ws": True, "case": "random"}]), rng, "random")
+        case = make_case(t, rng.choice([None, "multiline", {"case": "lower"}, {"ws": True, "case": "random"}, {"ws": True, "nl": 0.25}, {"nl": 0.4, "indent": True}]), rng, "random")
         check_case(ctx, case)
         ctx.obs["random_cases"] += 1
         if i == 0:
